@@ -1,4 +1,5 @@
 """driver for absint-based checks: entry selection, invariant fixpoint passes, obligation reporting"""
+import os
 import time
 from . import absint_interp, absint_inv
 from .lir import strip_generics
@@ -113,12 +114,20 @@ def _analyse_entries(prog, inv, an, entries):
             skipped[b.path] = h
             continue
         is_async = (prog.fns.get(b.raw_path) or {}).get('async')
+        trace = os.environ.get('LRS_TRACE_ENTRIES')
+        t0 = time.time()
+        if trace:
+            with open(trace, 'a') as f_:
+                f_.write('start %d %s\n' % (os.getpid(), b.path))
         for sub in instantiations(prog, b):
             if is_async:
                 fr, out = absint_interp.analyze_async_entry(an, b, subst=sub)
             else:
                 fr, out = an.analyze_entry(b, subst=sub)
                 inv.check_mut_self_exit(an, b, fr, out)
+        if trace:
+            with open(trace, 'a') as f_:
+                f_.write('done %d %s %.1f\n' % (os.getpid(), b.path, time.time() - t0))
     return skipped
 
 
